@@ -101,6 +101,13 @@ func LegalLen(stream bool, code uint8, id uint16, n int) bool {
 	return n >= r.min && n <= r.max
 }
 
+// LegalRange returns the legal value length range of option id for the registry that applies
+// to (transport, code); ok=false for numbers unknown to that registry.
+func LegalRange(stream bool, code uint8, id uint16) (int, int, bool) {
+	r, ok := Registry(stream, code)[id]
+	return r.min, r.max, ok
+}
+
 // RegistryIDs lists the known option numbers of the base registry.
 func RegistryIDs() []uint16 {
 	return []uint16{1, 3, 4, 5, 6, 7, 8, 11, 12, 14, 15, 17, 20, 23, 27, 28, 35, 39, 60, 258}
